@@ -56,3 +56,49 @@ Proof.
     now rewrite (E l IH).
   - now rewrite IHa, IHb, IHc.
 Qed.
+
+(* ---- the STRICT published text codec (UTF-8 proper): what the tree emits equals it on every value whose text has no lone surrogate;
+   lone surrogates are where the repaired tree (surrogatepass, F1) leaves the published format ---- *)
+Fixpoint nosurr (v : pyval) : bool :=
+  match v with
+  | PStr cps => forallb (fun c => negb (is_surrogate c)) cps
+  | PTuple l | PFset l => (fix go (l : list pyval) : bool := match l with [] => true | y :: ys => nosurr y && go ys end) l
+  | PSlice a b c => nosurr a && nosurr b && nosurr c
+  | _ => true
+  end.
+Lemma enc1_sp_irrelevant sp c : is_surrogate c = false -> enc1 sp c = enc1 false c.
+Proof. intros H. unfold enc1. rewrite H. reflexivity. Qed.
+Lemma utf8_encode_sp_irrelevant sp : forall cs, forallb (fun c => negb (is_surrogate c)) cs = true -> utf8_encode sp cs = utf8_encode false cs.
+Proof.
+  induction cs as [|c t IH]; intros H; [reflexivity|]. cbn [forallb] in H. apply andb_true_iff in H as [Hc Ht].
+  apply negb_true_iff in Hc. cbn [utf8_encode]. rewrite (enc1_sp_irrelevant sp c Hc), (IH Ht). reflexivity.
+Qed.
+Theorem pub_dump_strict sp maxd : forall v, nosurr v = true -> pub_dump sp maxd v = pub_dump false maxd v.
+Proof.
+  induction v as [| | |b|z|b|b|b|cps|l IH|l IH|a b c IHa IHb IHc|k] using pyval_ind'; intros H; cbn [pub_dump]; try reflexivity.
+  - cbn [nosurr] in H. now rewrite (utf8_encode_sp_irrelevant sp cps H).
+  - destruct (pub_count 2 16 20 21 (nlen l)); cbn [bind]; try reflexivity. f_equal.
+    cbn [nosurr] in H. revert H. induction IH as [|y ys Hy _ IHys]; intros H; [reflexivity|].
+    apply andb_true_iff in H as [H1 H2]. rewrite (Hy H1), (IHys H2). reflexivity.
+  - destruct (pub_count 2 16 20 21 (nlen l)); cbn [bind]; try reflexivity. f_equal.
+    cbn [nosurr] in H. revert H. induction IH as [|y ys Hy _ IHys]; intros H; [reflexivity|].
+    apply andb_true_iff in H as [H1 H2]. rewrite (Hy H1), (IHys H2). reflexivity.
+  - cbn [nosurr] in H. apply andb_true_iff in H as [H Hc]. apply andb_true_iff in H as [Ha Hb]. now rewrite (IHa Ha), (IHb Hb), (IHc Hc).
+Qed.
+Theorem dump_is_strictly_published P v : nosurr v = true -> dump P v = pub_dump false (maxdigits P) v.
+Proof. intros H. rewrite dump_is_published. now apply pub_dump_strict. Qed.
+(* and where it leaves it: one lone surrogate, encoded by a surrogatepass tree, refused by the strict codec *)
+Lemma surrogate_witness : dump {| sp := true; maxdigits := 4300 |} (PStr [0xD800%N]) = Ok [x08; x0c; xed; xa0; x80]
+  /\ pub_dump false 4300 (PStr [0xD800%N]) = Raise UnicodeError.
+Proof. split; vm_compute; reflexivity. Qed.
+
+(* ---- frames ---- *)
+From V Require Import model.Channel.
+Theorem frame_is_published zlib (P : cparams) cmp d : threshold P = 3000 -> flusher P = [b_of 10] ->
+  frame zlib P cmp d = pub_frame zlib cmp d.
+Proof.
+  intros Ht Hf. unfold frame, frame_body, pub_frame, header, pack_I4. rewrite Ht, Hf.
+  destruct (cmp && (3000 <? nlen d)); cbn [bind];
+    match goal with |- context [nlen ?b <? 4294967296] => destruct (nlen b <? 4294967296) end; cbn [bind]; try reflexivity;
+    now rewrite <- !app_assoc.
+Qed.
